@@ -63,7 +63,7 @@ Definition obs_eqb (a b : obs) : bool :=
     It keeps three facts of its own, derived only from the events and the captured packets:
     - [g_out]: the uplink on which a REG1 is outstanding and when it was last transmitted.
       A REG1 stays outstanding until it is answered (REG2 accepted), cancelled (REG_ERR) or a
-      driver tick finds it [REG2_WAIT_MS] = 4 s old;
+      driver tick finds it [TEXT_TIMEOUT_MS] = 4 s old;
     - [g_owed]: an id was adopted and its broadcast round has not happened yet;
     - [g_free]: the last attempt ended by timeout and no REG1 went out since. *)
 Record ghost := G { g_out : option (Z * Z); g_owed : bool; g_free : bool }.
@@ -104,9 +104,13 @@ Fixpoint conn_ok (i : Z) (pre post : list bool) (reg3_on : option Z) : bool :=
     7 a pending attempt survives a REG_ERR
     8 a REG1 unanswered for 4 s is still pending after a tick
     9 after such a timeout, with no uplink connected, a REG_NGP is not answered by a new REG1 *)
+(** "the 4 s timeout" of the property text, as a literal: if the code's constant moves away
+    from it, the monitor keeps judging by the text. *)
+Definition TEXT_TIMEOUT_MS : Z := 4000.
+
 Definition expired (g : ghost) (o : op) : bool :=
   match o, g_out g with
-  | Tick t _ _, Some (_, t0) => t0 + REG2_WAIT_MS <=? t
+  | Tick t _ _, Some (_, t0) => t0 + TEXT_TIMEOUT_MS <=? t
   | _, _ => false
   end.
 (** what is outstanding once this step's timeout (if any) has taken effect *)
